@@ -225,3 +225,7 @@ func TestVF_C14_Header(t *testing.T) {
 }
 
 var _ = fmt.Sprint
+
+func FuzzVF_C14_Header(f *testing.F) {
+	kit.DriveFuzz(f, "C14", "FuzzVF_C14_Header", "native coverage-guided fuzzing (go test -fuzz) of the byte stream behind the generator of TestVF_C14_Header, same oracle", vfGenHdr, vfRunHdr)
+}
